@@ -17,7 +17,7 @@ from lib import *
 
 UNB = 1000000
 QDEPS = ["Queue.tla", "QueueProp.tla", "MC_Queue.tla"]
-SAFETY = ["NoViolation", "C08_Safe", "C10_Cap", "C15_Quiescent", "C15_NoWrap", "C11_Panics", "C09_Safe"]
+SAFETY = ["NoViolation", "C08_Safe", "C10_Cap", "C10_NeverBlocked", "C15_Quiescent", "C15_NoWrap", "C11_Panics", "C09_Safe"]
 
 
 def consts(cap, metrics=3, handles=2, outcomes=("ok", "err", "panic"), eh=True, policy="fixed", sampler=False,
@@ -66,12 +66,12 @@ def exhaustive(res, tier, wd):
             r, out = tlc("MC_Queue", cfgfile(wd, "mc-" + policy, consts(2, policy=policy)), wd, workers=4, timeout=1200, tag="pol" + policy)
             return r
         return tlc_cached("queue-policy-" + policy, go, deps=QDEPS)
-    for pol in ("legacy", "nohelper"):
+    for pol in ("legacy", "nohelper", "blocking-emit"):
         r = legacy(pol)
         if not r["violated"]:
             raise ToolError("stop policy %s is not refuted by TLC: the properties cannot fail" % pol)
         res.notes["policy_" + pol] = "refuted: %s" % r["violated"]
-    log("[E] pre-repair stop policies refuted by TLC: legacy (D2), nohelper (D3)")
+    log("[E] model mutants refuted by TLC: legacy (D2), nohelper (D3), blocking-emit (C10)")
 
 
 def judge(res, verdict, events, origin):
